@@ -79,7 +79,12 @@ NodeAddress(w, st, r) ==
 TcAddress(w, sec, st, r) ==
     (w.tcSelf = 1) => (sec.flagTcEui = 1 /\ sec.tcEui = st.eui /\ r.tcPartner = st.eui)
 
-Clauses == {"SecurityStateExact", "StoreHolds", "RoundTrip", "OrderOk", "Completed", "NodeAddress", "TcAddress", "ReadMatchesStore"}
+(* two reads of the settings that overlap in time (the second started after the first issued some commands): each reports what a *)
+(* read on its own reports - one read's commands must not colour the other's                                                        *)
+OverlapFields(x) == <<x.pan, x.epan, x.channel, x.updateId, x.netKey, x.netSeq, x.netFc, x.tclk, x.tcPartner, x.ieee>>
+OverlapReads(r, ro) == \A i \in 1 .. Len(ro) : OverlapFields(ro[i]) = OverlapFields(r)
+
+Clauses == {"SecurityStateExact", "StoreHolds", "RoundTrip", "OrderOk", "Completed", "NodeAddress", "TcAddress", "ReadMatchesStore", "OverlapReads"}
 Violated(e) == {c \in Clauses :
     ~(CASE c = "SecurityStateExact" -> (e.completed = 1 => SecurityStateExact(e.ver, e.w, e.sec))
         [] c = "StoreHolds" -> (e.completed = 1 => StoreHolds(e.ver, e.w, e.st))
@@ -89,5 +94,6 @@ Violated(e) == {c \in Clauses :
         [] c = "TcAddress" -> (e.completed = 1 => TcAddress(e.w, e.sec, e.st, e.r))
         \* a child left the NCP's table (a hole below occupied slots), then the settings are read again: the child table read is the NCP's
         [] c = "ReadMatchesStore" -> ((e.completed = 1 /\ e.second = 1) => ToSet(e.r2children) = ToSet(e.st2children))
+        [] c = "OverlapReads" -> ((e.completed = 1 /\ e.overlap = 1) => (Len(e.ro) = 2 /\ OverlapReads(e.r, e.ro)))
         [] c = "Completed" -> e.completed = 1)}
 =============================================================================
